@@ -305,6 +305,16 @@ def call_builtin(ex, e, st, name, desc):
                 ex.safety(st, 'TypeError', f'{name}() of a non-int ({desc})', S.is_int(a_.t))
         a, b = S.ival(args[0].t), S.ival(args[1].t)
         return val(st, V(S.mk_int(z3.If((a <= b) if name == 'min' else (a >= b), a, b)), S.Int))
+    if name in ('min', 'max') and len(args) == 1 and not kwargs and S.strip_opt(args[0].ty).kind == 'set':
+        # max/min of a set of ints: a member that bounds every member (ValueError on the empty set, TypeError on non-int members)
+        dom = st.sel('dom', S.addr(args[0].t))
+        x = z3.Const('mx', S.PyObj())
+        ex.safety(st, 'ValueError', f'{name}() of an empty set ({desc})', z3.Exists([x], z3.Select(dom, x)))
+        ex.safety(st, 'TypeError', f'{name}() of a set with a non-int member ({desc})', S.forall([x], z3.Implies(z3.Select(dom, x), S.is_int(x)), patterns=[z3.Select(dom, x)]))
+        r = S.fresh(name + '_of_set', z3.IntSort())
+        st.assume(z3.Select(dom, S.mk_int(r)))
+        st.assume(S.forall([x], z3.Implies(z3.Select(dom, x), (S.ival(x) <= r) if name == 'max' else (S.ival(x) >= r)), patterns=[z3.Select(dom, x)]))
+        return val(st, V(S.mk_int(r), S.Int))
     if name == 'abs' and len(args) == 1 and args[0].ty.kind == 'int':
         a = S.ival(args[0].t)
         return val(st, V(S.mk_int(z3.If(a >= 0, a, -a)), S.Int))
